@@ -5,6 +5,7 @@ import CCVerif.Lemmas.ParserShapeTop
 import CCVerif.Lemmas.RangeExactPos
 import CCVerif.Lemmas.ParseRender
 import CCVerif.Lemmas.ParseShaped
+import CCVerif.Lemmas.ParserWfLex
 /-!
 # C06 — the parser builds the grammar's tree; node ranges delimit their source text
 
@@ -1035,12 +1036,14 @@ theorem parens_limits :
     ok [t .PUNC_PL, a, t .EQUAL, b, t .PUNC_PR, t .AND, a, t .EQUAL, b] = true := by
   decide +kernel
 
-/-! ## the parser's range and the carrier `defShaped` of the schema-level theorems (prover-C06f)
+/-! ## the parser's range and the carrier `defShaped` of the schema-level theorems (prover-C06f, prover-Wf)
 
 C08 `rename_iso_checker_shaped`, C11 `fresh_checker_evaluator_partial3/4`, C12 `synth_correct_checker`, C13
 `extract_status_type_preserved_checker` assume that every stored definition is GRAMMAR-SHAPED (`SchemaGen.defShaped`:
-`Wf.wf .ND` of `Model/WfAst.lean` + `Checker.shapeOK`). The schemas store what the parser returned — but the carrier is
-STRICTLY SMALLER than the range of the parser. -/
+`Wf.wf .ND` of `Model/WfAst.lean` + `Checker.shapeOK`). The schemas store what the parser returned. Since the widening
+of `Wf.shape` (a call standing where `logic_or_setexpr` is accepted is headed by a predicate OR a term-function name,
+`Wf.shapeLS`) a term-function call at the top of a definition or as the body of a function definition is on the
+carrier (`parse_call_defShaped`); what is still outside is a definition containing a radical token spelled `R0…`. -/
 
 /-- the statement one would like: every definition tree (no global declaration at the top) the parser returns is in
 the carrier. FALSE: `parse_gives_defShaped_counterexample`. -/
@@ -1048,25 +1051,77 @@ def parse_gives_defShaped_statement : Prop :=
   ∀ (syn : Syn) (text : List Nat) (t : Ast), parse syn text = some t → t.id ≠ .PUNC_DEFINE → t.id ≠ .PUNC_STRUCT →
     SchemaGen.defShaped (some t) = true
 
-/-- **parse_gives_defShaped_counterexample**: two closed texts whose parsed tree is outside the carrier.
-(1) `F1[X1]` — a call of a TERM function at the top of a definition (the same for the body of a function definition,
-`[α∈ℬ(R1)] F1[α]`): `Wf.shape .ND` / `.LS` look up `NT_FUNC_CALL` among the logic shapes first and find the predicate
-call `headAll .PN`, so `Wf.wf .ND` fails on an `ID_FUNCTION` head (below a set operator, `X1∪F1[X1]`, the tree IS
-shaped); `shapeOK` holds. (2) `X1∪R01` (also `R0`) — the lexer's `R{number}` makes `R01` an `ID_RADICAL` token, for
-`Types.isRadical` (`alias.at(1) != '0'`) it is not a radical, so `shapeOK` fails; `Wf.wf .ND` holds. The real parser
-accepts both texts; the theorems stated on the carrier say nothing about schemas that contain such definitions. -/
+/-- **parse_call_defShaped** (positive examples, formerly the first half of the counterexample): the parsed trees of
+`F1[X1]` — a call of a TERM function at the top of a definition —, of `[α∈ℬ(R1)] F1[α]` — the same as the body of a
+function definition —, of the predicate calls `P1[X1]`, `[α∈ℬ(R1)] P1[α]` and of `X1∪F1[X1]` are all on the carrier
+(`Wf.wf .ND` and `shapeOK`), in both syntaxes where the text is ASCII. -/
+theorem parse_call_defShaped :
+    parse .math (units "F1[X1]") = some ParseShaped.exCall ∧ parse .ascii (units "F1[X1]") = some ParseShaped.exCall ∧
+    Wf.wf .ND ParseShaped.exCall = true ∧ SchemaGen.defShaped (some ParseShaped.exCall) = true ∧
+    (∀ s ∈ ["[α∈ℬ(R1)] F1[α]", "P1[X1]", "[α∈ℬ(R1)] P1[α]", "X1∪F1[X1]", "[α∈ℬ(R1)] α∪F1[F1[α]]"],
+      ((parse .math (units s)).map fun t => SchemaGen.defShaped (some t)) = some true) := by
+  refine ⟨by decide +kernel, by decide +kernel, by decide +kernel, by decide +kernel, by decide +kernel⟩
+
+/-- **parse_gives_defShaped_counterexample**: a closed text whose parsed tree is outside the carrier: `X1∪R01` (also
+`R0`) — the lexer's `R{number}` makes `R01` an `ID_RADICAL` token, for `Types.isRadical` (`alias.at(1) != '0'`) it is
+not a radical, so `shapeOK` fails; `Wf.wf .ND` holds. The real parser accepts the text; the theorems stated on the
+carrier say nothing about schemas that contain such a definition. (The former first half — `F1[X1]`, a term-function
+call at the top — was an artefact of `Wf.shape` and is gone: `parse_call_defShaped`.) -/
 theorem parse_gives_defShaped_counterexample :
     ¬ parse_gives_defShaped_statement ∧
-    parse .math (units "F1[X1]") = some ParseShaped.exCall ∧ parse .ascii (units "F1[X1]") = some ParseShaped.exCall ∧
-    Wf.wf .ND ParseShaped.exCall = false ∧ Checker.shapeOK ParseShaped.exCall = true ∧
     parse .math (units "X1∪R01") = some ParseShaped.exRad ∧
-    Wf.wf .ND ParseShaped.exRad = true ∧ Checker.shapeOK ParseShaped.exRad = false := by
-  have h1 : parse .math (units "F1[X1]") = some ParseShaped.exCall := by decide +kernel
-  refine ⟨?_, h1, by decide +kernel, by decide +kernel, by decide +kernel, by decide +kernel, by decide +kernel,
-    by decide +kernel⟩
+    Wf.wf .ND ParseShaped.exRad = true ∧ Checker.shapeOK ParseShaped.exRad = false ∧
+    ((parse .math (units "R0")).map fun t => (Wf.wf .ND t, Checker.shapeOK t)) = some (true, false) := by
+  have h1 : parse .math (units "X1∪R01") = some ParseShaped.exRad := by decide +kernel
+  refine ⟨?_, h1, by decide +kernel, by decide +kernel, by decide +kernel⟩
   intro h
   have := h .math _ _ h1 (by decide) (by decide)
   revert this
+  decide +kernel
+
+/-- the statement one would like: every tree the parser returns is a phrase of the executable grammar `Wf.wfAst`
+(`Model/WfAst.lean`), and `Wf.wf .ND` — the first half of the carrier — when its root is not a global declaration.
+Proved up to the re-lexing of identifier texts: `parse_gives_Wf_partial`. -/
+def parse_gives_Wf_statement : Prop :=
+  ∀ (syn : Syn) (text : List Nat) (t : Ast), parse syn text = some t →
+    Wf.wfAst t = true ∧ (t.id ≠ .PUNC_DEFINE → t.id ≠ .PUNC_STRUCT → Wf.wf .ND t = true)
+
+/-- **parse_gives_Wf_partial** (strengthens `parse_gives_WfParsed` to the executable grammar): for both syntaxes and
+every text, the tree `parse` returns satisfies `Wf.wfAst` — exact arities, set / logic / declaration positions, the
+head of a call a leaf of the right kind, `:∈` / `:=` only directly below an imperative expression (`SemanticCheck`),
+operator nodes without payload, `Pr/pr/Fi` with a non-empty `int16_t` tuple, integer literals `int32_t`, identifier
+leaves without children — and `Wf.wf .ND` when its root is not a global declaration. MISSING HYPOTHESIS `hr`: the
+text of every identifier token of the stream, lexed alone in the MATH syntax, is ONE token of the same kind
+(`ParserWf.IdentsRelex`, what `Wf.wfLeaf` asks of an identifier leaf; decidable for a closed text,
+`ParserWf.identsRelexB`; a maximal-munch property of the lexer tables, not proved here). Invariant over the twelve
+mutually recursive parser functions for the relaxed grammar `Wf.wfR`, then `SemanticCheck` (`Wf.wf_of_wfR`). -/
+theorem parse_gives_Wf_partial (syn : Syn) (text : List Nat) (t : Ast) (h : parse syn text = some t)
+    (hr : ∀ ts, lex syn text = some ts → ParserWf.IdentsRelex ts) :
+    Wf.wfAst t = true ∧ (t.id ≠ .PUNC_DEFINE → t.id ≠ .PUNC_STRUCT → Wf.wf .ND t = true) :=
+  ParserWf.parse_wfAst syn text t h hr
+
+/-- … on token streams, with the payload condition `ParserWf.tokW` on the tokens the parser sees -/
+theorem parseToks_gives_Wf (ts : List LTok) (t : Ast)
+    (ht : ∀ tok ∈ ts.takeWhile (fun t => t.id != .END && t.id != .INTERRUPT), ParserWf.tokW tok = true)
+    (h : parseToks ts = some t) : Wf.wfAst t = true :=
+  ParserWf.parseToks_wfAst ts t ht h
+
+/-- **parse_gives_defShaped_partial**: the carrier hypothesis of C08 / C11 / C12 / C13 for a stored definition that
+was parsed: the identifier texts re-lex as themselves (`hr`, see above) and the token-level conditions `shapeOK` hold
+(they fail exactly for a radical token spelled `R0…`, `parse_gives_defShaped_counterexample`). -/
+theorem parse_gives_defShaped_partial (syn : Syn) (text : List Nat) (t : Ast) (h : parse syn text = some t)
+    (h1 : t.id ≠ .PUNC_DEFINE) (h2 : t.id ≠ .PUNC_STRUCT)
+    (hr : ∀ ts, lex syn text = some ts → ParserWf.IdentsRelex ts) (hs : Checker.shapeOK t = true) :
+    SchemaGen.defShaped (some t) = true := by
+  show (Wf.wf .ND t && Checker.shapeOK t) = true
+  rw [(parse_gives_Wf_partial syn text t h hr).2 h1 h2, hs]
+  rfl
+
+/-- non-vacuity: `[α∈ℬ(R1)] D{ξ∈α | F1[ξ, Pr1,2(X1)]≠∅ & ∀σ,(β,γ)∈X1×X2 P2[σ]}` and `I{(a,b) | a:∈X1; b:=a; (a,b)∈S1}`
+meet the hypotheses -/
+example : ∀ s ∈ ["[α∈ℬ(R1)] D{ξ∈α | F1[ξ, Pr1,2(X1)]≠∅ & ∀σ,(β,γ)∈X1×X2 P2[σ]}", "I{(a,b) | a:∈X1; b:=a; (a,b)∈S1}"],
+    ((lex .math (units s)).map ParserWf.identsRelexB) = some true ∧ (parse .math (units s)).isSome = true ∧
+    ((parse .math (units s)).map Checker.shapeOK) = some true := by
   decide +kernel
 
 /-- **lex_identifier_spelling**: for both syntaxes and EVERY text, the text of every identifier token of the lexer's
